@@ -43,11 +43,33 @@ type propPlan struct {
 	Thor  plan
 }
 
+func q(shards, checks int, to time.Duration) plan {
+	return plan{Shards: shards, Checks: checks, CaseTO: to}
+}
+
+var cpuVariants = []string{"cpu.avx2=off", "cpu.avx2=off,cpu.ssse3=off"}
+
 var plans = map[string]propPlan{
-	"C01": {Level: "exploration", Quick: plan{Shards: 16, Checks: 2500, CaseTO: 60 * time.Second}, Thor: plan{Shards: 16, Checks: 60000, CaseTO: 120 * time.Second}},
-	"C02": {Level: "exploration", Quick: plan{Shards: 16, Checks: 2500, CaseTO: 60 * time.Second}, Thor: plan{Shards: 16, Checks: 60000, CaseTO: 120 * time.Second}},
-	"C03": {Level: "exploration", Quick: plan{Shards: 16, Checks: 2500, CaseTO: 60 * time.Second}, Thor: plan{Shards: 16, Checks: 60000, CaseTO: 120 * time.Second}},
-	"C04": {Level: "exploration", Quick: plan{Shards: 16, Checks: 2000, CaseTO: 60 * time.Second}, Thor: plan{Shards: 16, Checks: 50000, CaseTO: 120 * time.Second}},
+	"C01": {Level: "exploration", Quick: q(16, 2500, 60*time.Second), Thor: q(16, 60000, 120*time.Second)},
+	"C02": {Level: "exploration", Quick: q(16, 2500, 60*time.Second), Thor: q(16, 60000, 120*time.Second)},
+	"C03": {Level: "exploration", Quick: q(16, 2500, 60*time.Second), Thor: q(16, 60000, 120*time.Second)},
+	"C04": {Level: "exploration", Quick: q(16, 2000, 60*time.Second), Thor: q(16, 50000, 120*time.Second)},
+	"C05": {Level: "exploration", Quick: plan{Shards: 16, Checks: 60, CaseTO: 120 * time.Second, Variant: "cover"}, Thor: plan{Shards: 16, Checks: 1500, CaseTO: 300 * time.Second, Variant: "cover"}},
+	"C06": {Level: "exploration", Quick: plan{Shards: 16, Checks: 40, CaseTO: 120 * time.Second, Variant: "race"}, Thor: plan{Shards: 16, Checks: 1200, CaseTO: 300 * time.Second, Variant: "race"}},
+	"C07": {Level: "exploration", Quick: q(16, 600, 60*time.Second), Thor: q(16, 20000, 120*time.Second)},
+	"C08": {Level: "exploration", Quick: q(16, 1500, 60*time.Second), Thor: q(16, 40000, 120*time.Second)},
+	"C09": {Level: "exploration", Quick: q(16, 1500, 60*time.Second), Thor: q(16, 40000, 120*time.Second)},
+	"C10": {Level: "exploration", Quick: q(16, 1200, 60*time.Second), Thor: q(16, 30000, 120*time.Second)},
+	"C11": {Level: "exploration", Quick: q(16, 500, 60*time.Second), Thor: q(16, 15000, 180*time.Second)},
+	"C12": {Level: "exploration", Quick: plan{Shards: 16, Checks: 400, CaseTO: 60 * time.Second, CPUVariants: cpuVariants}, Thor: plan{Shards: 16, Checks: 10000, CaseTO: 120 * time.Second, CPUVariants: cpuVariants}},
+	"C13": {Level: "exploration", Quick: q(16, 120, 120*time.Second), Thor: q(16, 3000, 300*time.Second)},
+	"C14": {Level: "exploration", Quick: q(16, 120, 120*time.Second), Thor: q(16, 2500, 300*time.Second)},
+	"C15": {Level: "exploration", Quick: q(16, 5, 120*time.Second), Thor: q(16, 60, 600*time.Second)},
+	"C16": {Level: "exploration", Quick: plan{Shards: 16, Checks: 1200, CaseTO: 60 * time.Second, CPUVariants: cpuVariants}, Thor: plan{Shards: 16, Checks: 40000, CaseTO: 120 * time.Second, CPUVariants: cpuVariants}},
+	"C17": {Level: "exploration", Quick: q(16, 2000, 60*time.Second), Thor: q(16, 60000, 120*time.Second)},
+	"C18": {Level: "exploration", Quick: plan{Shards: 16, Checks: 2000, CaseTO: 60 * time.Second, CPUVariants: cpuVariants}, Thor: plan{Shards: 16, Checks: 40000, CaseTO: 120 * time.Second, CPUVariants: cpuVariants}},
+	"C19": {Level: "exploration", Quick: q(16, 1200, 60*time.Second), Thor: q(16, 30000, 120*time.Second)},
+	"C20": {Level: "exploration", Quick: q(16, 30, 120*time.Second), Thor: q(16, 700, 300*time.Second)},
 }
 
 func main() {
@@ -155,6 +177,7 @@ type driver struct {
 	plan              plan
 	bin               string
 	survey            bool
+	tmp               string
 
 	mu          sync.Mutex
 	evaluations int64
@@ -200,6 +223,7 @@ func (d *driver) run() int {
 		return 2
 	}
 	defer os.RemoveAll(tmp)
+	d.tmp = tmp
 
 	// ---- replay tier: known-finding witnesses and regression corpus
 	if code := d.replayTier(tmp); code == 2 {
@@ -275,6 +299,14 @@ func (d *driver) workerCmd(args []string, godebug string) *exec.Cmd {
 		cmd = exec.Command(d.bin, args...)
 	}
 	cmd.Env = append(os.Environ(), d.plan.Env...)
+	switch d.plan.Variant {
+	case "race":
+		cmd.Env = append(cmd.Env, "GOMAXPROCS=4", "GORACE=halt_on_error=0 exitcode=0 log_path="+filepath.Join(d.tmp, "race"))
+	case "cover":
+		cmd.Env = append(cmd.Env, "GOMAXPROCS=2", "GOCOVERDIR="+d.tmp)
+	default:
+		cmd.Env = append(cmd.Env, "GOMAXPROCS=2")
+	}
 	if godebug != "" {
 		cmd.Env = append(cmd.Env, "GODEBUG="+godebug)
 	}
